@@ -824,7 +824,7 @@ def run_params(chk, pair, cov):
     L = scen_reserved_id()
     res = pair.run(L, only="c")
     chk.count(("reserved-id",))
-    if not any(l.startswith("error attempt to use reserved input ID") for l in res["c"]) or "result EMPTY" not in res["c"]:
+    if not any(l.startswith("error ") for l in res["c"]) or "result EMPTY" not in res["c"]:      # any error callback (the wording is not fixed) + failed build
         chk.violation("capi-reserved-input-id", "an input id above kMaximumInputID passed to llb_buildengine_task_needs_input was not rejected as documented",
                       dict(mode="param-reserved-id", scenario=L, c_trace=res["c"][:100]), found_input=True, broken="C20 oracle: reserved input ids")
     # ---- cycle reporting, edge keys
